@@ -98,20 +98,6 @@ example :
     runLoop (ε := Unit) true [] [] = (.ok (.Ok ()), []) := by
   decide
 
-/-- the number of rejecting blocks among the tests that are run -/
-def failureCount (tests : List TestCase) : Nat := (tests.filter (fun t => !accepts t)).length
-
-theorem failureCount_pos (tests : List TestCase) :
-    0 < failureCount tests ↔ ∃ t ∈ tests, t.func.info.verdict ≠ .Accept () := by
-  unfold failureCount
-  rw [List.length_pos_iff_exists_mem]
-  constructor
-  · rintro ⟨t, ht⟩
-    obtain ⟨hm, hp⟩ := List.mem_filter.mp ht
-    exact ⟨t, hm, by simpa [accepts] using hp⟩
-  · rintro ⟨t, hm, hp⟩
-    exact ⟨t, List.mem_filter.mpr ⟨hm, by simpa [accepts] using hp⟩⟩
-
 /-- T2 by count.  For EVERY number of rejecting blocks (`failureCount tests` ranges over all of
     `Nat` below the counter width, not over sampled values): the loop ends in `Err` iff that
     number is positive.  Any arithmetic on the count between the loop and the result
@@ -134,11 +120,6 @@ theorem aggregate_count {ε} (dbg : Bool) (tests : List TestCase) (hlen : tests.
       exact Classical.byContradiction fun hc =>
         hn (fun t hm => Classical.byContradiction fun hp => hc ⟨t, hm, hp⟩)
     · intro _; rfl
-
-theorem failureCount_replicate (acc rej : TestCase)
-    (hacc : acc.func.info.verdict = .Accept ()) (hrej : rej.func.info.verdict = .Reject ()) (a n : Nat) :
-    failureCount (List.replicate a acc ++ List.replicate n rej) = n := by
-  simp [failureCount, List.filter_append, accepts, hacc, hrej]
 
 /-- … and every count is realised: `a` accepting and `n` rejecting blocks, for every `n` —
     in particular `n = 256·k`, which a status or counter truncated to 8 bits would map to 0. -/
@@ -190,6 +171,18 @@ theorem run_tests_truthful {ε} (dbg : Bool) (module : Module) (tests : List Tes
   rw [run_tests_eq dbg module tests h]
   exact aggregate_iff dbg tests hlen log
 
+/-- The public entry points of src/pipeline.rs add nothing of their own: with or without a
+    context, `Package::run_tests` is `run_tests` on the package's module, and
+    `Package::get_tests` is `get_tests` (so T1/T2 speak about all three). -/
+theorem package_entry_points {ε} (dbg : Bool) (p : Package) (log : List Event) :
+    Package_run_tests (ε := ε) dbg p log = run_tests dbg p.module () log ∧
+    Package_run_tests_ctx (ε := ε) dbg p () log = run_tests dbg p.module () log ∧
+    Package_get_tests dbg p = get_tests dbg p.module := by
+  refine ⟨?_, ?_, ?_⟩
+  · simp only [Package_run_tests]
+  · simp only [Package_run_tests_ctx, id]
+  · simp only [Package_get_tests]
+
 /-! ## T4 — the CLI -/
 
 def compileOk (W : World) : Bool := W.readOk && W.parseOk && W.typeOk
@@ -201,12 +194,6 @@ def isRanTest : Event → Bool
 def isEntryCall : Event → Bool
   | .calledEntry _ => true
   | _ => false
-
-@[simp] theorem failed_SUCCESS : ExitCode.SUCCESS.failed = false := rfl
-@[simp] theorem failed_FAILURE : ExitCode.FAILURE.failed = true := rfl
-/-- a literal status (`ExitCode::from(k)`): the proofs below do not depend on WHICH non-zero
-    status a failure exits with -/
-@[simp] theorem failed_ofStatus (n : Nat) : (ExitCode.ofStatus n).failed = (n % 256 != 0) := rfl
 
 /-- `check`: the process reports failure (non-zero status) exactly on a compile error; no
     script code runs. -/
